@@ -106,8 +106,8 @@ def run_case(case: dict) -> core.CaseResult:
         res.states |= sub.states
         res.nontrivial |= sub.nontrivial
         res.outcomes.update(sub.outcomes)
-        for k, t in sub.violations:
-            res.fail(k, t)
+        for k, t, c in sub.violations:
+            res.fail(k, t, c or {'text': slice_, 'target': rule})
     return res
 
 
